@@ -481,6 +481,20 @@ pub fn run(run: &mut Run, rng: &mut Rng) {
     }
     run.obligations.insert("asset-level-verdict-follows-the-statement".to_string(), asset_ok);
 
+    // 4d'. the leaf index is the chunk's position: chunks moved together with their uuid boxes
+    //      (mdat UUID-box branch with 1..3 mdat boxes; fragmented single-file branch)
+    let nplace = if run.thorough() { 12_000 } else { 1_500 };
+    let mut place_ok = true;
+    for _ in 0..nplace {
+        let mut r = rng.fork();
+        placement_case(run, &mut r, &mut place_ok);
+    }
+    for _ in 0..nplace / 3 {
+        let mut r = rng.fork();
+        fragment_case(run, &mut r, &mut place_ok);
+    }
+    run.obligations.insert("content-at-every-chunk-position-is-the-committed-content".to_string(), place_ok);
+
     // 4e. (not compared, not judged) the documented function-level exception: a value that is not
     //     an `alg` digest. concat_and_hash has no framing, so value = last 16 bytes of the right leaf
     //     with the proof element (left leaf || first 16 bytes of the right leaf) is accepted. No call
@@ -525,9 +539,13 @@ fn cbor_head(out: &mut Vec<u8>, major: u8, n: u64) {
 
 /// CBOR of a `BmffMerkleMap` { uniqueId: 0, localId: 0, location, hashes? } (absent = `None`)
 fn bmff_merkle_map_cbor(location: usize, hashes: &Option<Vec<Vec<u8>>>) -> Vec<u8> {
+    bmff_merkle_map_cbor_id(0, location, hashes)
+}
+
+fn bmff_merkle_map_cbor_id(id: usize, location: usize, hashes: &Option<Vec<Vec<u8>>>) -> Vec<u8> {
     let mut o = vec![];
     cbor_head(&mut o, 5, if hashes.is_some() { 4 } else { 3 });
-    for (k, v) in [("uniqueId", 0u64), ("localId", 0), ("location", location as u64)] {
+    for (k, v) in [("uniqueId", id as u64), ("localId", id as u64), ("location", location as u64)] {
         cbor_head(&mut o, 3, k.len() as u64);
         o.extend_from_slice(k.as_bytes());
         cbor_head(&mut o, 0, v);
@@ -559,15 +577,21 @@ fn build_asset(chunks: &[Vec<u8>], maps: &[(usize, Option<Vec<Vec<u8>>>)]) -> Ve
         f.extend_from_slice(c);
     }
     for (loc, hashes) in maps {
-        let cbor = bmff_merkle_map_cbor(*loc, hashes);
-        let size = 8 + 16 + 4 + 7 + cbor.len();
-        f.extend_from_slice(&(size as u32).to_be_bytes());
-        f.extend_from_slice(b"uuid");
-        f.extend_from_slice(&C2PA_UUID);
-        f.extend_from_slice(&[0, 0, 0, 0]);
-        f.extend_from_slice(b"merkle\0");
-        f.extend_from_slice(&cbor);
+        f.extend_from_slice(&merkle_uuid_box(&bmff_merkle_map_cbor(*loc, hashes)));
     }
+    f
+}
+
+/// a C2PA `merkle` uuid box around the CBOR of one `BmffMerkleMap`
+fn merkle_uuid_box(cbor: &[u8]) -> Vec<u8> {
+    let mut f = vec![];
+    let size = 8 + 16 + 4 + 7 + cbor.len();
+    f.extend_from_slice(&(size as u32).to_be_bytes());
+    f.extend_from_slice(b"uuid");
+    f.extend_from_slice(&C2PA_UUID);
+    f.extend_from_slice(&[0, 0, 0, 0]);
+    f.extend_from_slice(b"merkle\0");
+    f.extend_from_slice(cbor);
     f
 }
 
@@ -736,6 +760,339 @@ fn asset_case(run: &mut Run, r: &mut Rng, all_ok: &mut bool) {
             _ => "honest-asset-rejected",
         };
         run.fail(idx, class, format!("{kind}: {n} chunks, block size {block}, stored row {rowk}, leaf {loc}: BmffHash::verify_stream_hash says {reply}, the statement requires {want}"));
+    }
+}
+
+// ---- chunk placement: the leaf index is the position of the chunk ---------------------------------
+//
+// The `location` of a leaf comes from the chunk's C2PA `merkle` uuid box, which no hash covers (uuid
+// boxes and mdat are excluded from the flat hash).  The statement ("verifies against the stored hashes
+// at that leaf's index; no other ... index ... verifies") therefore needs the validator to use the
+// chunk's own position as the index.  These cases move a chunk TOGETHER with its box.
+
+/// one chunk as placed in the stream, with the uuid box that travels with it
+#[derive(Clone)]
+struct Placed {
+    /// content token: `<tree>.<leaf>` (the honest chunk `leaf` of mdat `tree`)
+    tok: String,
+    bytes: Vec<u8>,
+    loc: usize,
+    proof: Option<Vec<Vec<u8>>>,
+    /// tree the proof nodes come from
+    ptree: usize,
+}
+
+struct MdatSpec {
+    n: usize,
+    rowk: usize,
+    block: usize,
+    tree: C2PAMerkleTree,
+    chunks: Vec<Vec<u8>>,
+}
+
+fn placed_proof_tok(specs: &[MdatSpec], p: &Placed) -> String {
+    match &p.proof {
+        None => "none".to_string(),
+        Some(v) if v.is_empty() => "-".to_string(),
+        Some(v) => v
+            .iter()
+            .map(|d| node_token(&specs[p.ptree].tree, d).replacen('N', &format!("{}.", p.ptree), 1))
+            .collect::<Vec<_>>()
+            .join("+"),
+    }
+}
+
+fn honest_placed(specs: &[MdatSpec]) -> Vec<Vec<Placed>> {
+    specs
+        .iter()
+        .enumerate()
+        .map(|(t, sp)| {
+            (0..sp.n)
+                .map(|i| {
+                    let p = sp.tree.get_proof_by_index(i, sp.rowk).unwrap_or_default();
+                    Placed {
+                        tok: format!("{t}.{i}"),
+                        bytes: sp.chunks[i].clone(),
+                        loc: i,
+                        proof: if p.is_empty() { None } else { Some(p) },
+                        ptree: t,
+                    }
+                })
+                .collect()
+        })
+        .collect()
+}
+
+fn verdict_str(v: &Result<c2pa::Result<()>, String>) -> String {
+    match v {
+        Ok(Ok(())) => "true".to_string(),
+        Ok(Err(c2pa::Error::HashMismatch(_))) => "false".to_string(),
+        Ok(Err(e)) => format!("err:{}", format!("{e:?}").chars().take(60).collect::<String>().replace(' ', "_")),
+        Err(_) => "panic".to_string(),
+    }
+}
+
+/// mdat path, UUID-box branch of `validate_merkle_maps_mdat_boxes`, one to three mdat boxes
+fn placement_case(run: &mut Run, r: &mut Rng, all_ok: &mut bool) {
+    let nm = match r.below(8) {
+        0..=3 => 1usize,
+        4..=6 => 2,
+        _ => 3,
+    };
+    let same_n = r.chance(1, 2);
+    let n0 = r.range(2, 9) as usize;
+    let specs: Vec<MdatSpec> = (0..nm)
+        .map(|_| {
+            let n = if same_n { n0 } else { r.range(2, 9) as usize };
+            let block = if r.chance(1, 2) { 64 } else { r.range(65, 160) as usize };
+            let chunks: Vec<Vec<u8>> = (0..n).map(|_| r.bytes(block)).collect();
+            let leaves: Vec<MerkleNode> = chunks.iter().map(|c| MerkleNode(sha(&[c]))).collect();
+            let tree = C2PAMerkleTree::from_leaves(leaves, "sha256", false);
+            let rowk = r.below(tree.layers.len() as u64) as usize;
+            MdatSpec { n, rowk, block, tree, chunks }
+        })
+        .collect();
+    let honest = honest_placed(&specs);
+    let mut placed = honest.clone();
+    let t = r.below(nm as u64) as usize;
+    let n = specs[t].n;
+    let i = r.below(n as u64) as usize;
+    let j = (i + 1 + r.below(n as u64 - 1) as usize) % n;
+    let mut kind = "honest";
+    match r.below(10) {
+        0 | 1 => {
+            kind = "chunk-and-box-duplicated";
+            placed[t][j] = honest[t][i].clone();
+        }
+        2 | 3 => {
+            kind = "chunk-and-box-swapped";
+            placed[t].swap(i, j);
+        }
+        4 => {
+            kind = "all-chunks-and-boxes-same";
+            for q in 0..n {
+                placed[t][q] = honest[t][i].clone();
+            }
+        }
+        5 => {
+            kind = "chunks-and-boxes-rotated";
+            placed[t].rotate_left(1 + r.below(n as u64 - 1) as usize);
+        }
+        6 => {
+            // needs a second mdat with the same chunk length; otherwise stays honest
+            let u = (t + 1) % nm;
+            if u != t && specs[u].block == specs[t].block {
+                let q = r.below(specs[u].n as u64) as usize;
+                if specs[u].n == n && r.chance(1, 2) {
+                    kind = "mdat-groups-swapped";
+                    placed.swap(t, u);
+                } else {
+                    kind = "chunk-and-box-copied-across-mdats";
+                    placed[u][q] = honest[t][i].clone();
+                }
+            }
+        }
+        7 => {
+            kind = "boxes-only-swapped";
+            let (a, b) = (placed[t][i].clone(), placed[t][j].clone());
+            placed[t][i] = Placed { tok: a.tok, bytes: a.bytes, ..b.clone() };
+            placed[t][j] = Placed { tok: b.tok, bytes: b.bytes, ..a };
+        }
+        _ => {}
+    }
+
+    // the stream: ftyp, the mdat boxes, then the uuid boxes in mdat order
+    let mut f = vec![];
+    f.extend_from_slice(&20u32.to_be_bytes());
+    f.extend_from_slice(b"ftypisom\0\0\0\0isom");
+    for group in &placed {
+        let payload: usize = group.iter().map(|c| c.bytes.len()).sum();
+        f.extend_from_slice(&((8 + 8 + payload) as u32).to_be_bytes());
+        f.extend_from_slice(b"mdat");
+        f.extend_from_slice(b"EXCLUDED");
+        for c in group {
+            f.extend_from_slice(&c.bytes);
+        }
+    }
+    for (m, group) in placed.iter().enumerate() {
+        for c in group {
+            f.extend_from_slice(&merkle_uuid_box(&bmff_merkle_map_cbor_id(m, c.loc, &c.proof)));
+        }
+    }
+    // local ids as the SDK assigns them (the mdat index), sometimes other distinct numbers
+    let lids: Vec<usize> = if r.chance(2, 3) { (0..nm).collect() } else { (0..nm).map(|m| 7 + 5 * (nm - m)).collect() };
+    let mut bh = BmffHash::new("jumbf manifest", "sha256", None);
+    bh.set_default_exclusions();
+    bh.set_merkle(
+        specs
+            .iter()
+            .enumerate()
+            .map(|(m, sp)| MerkleMap {
+                unique_id: lids[m],
+                local_id: lids[m],
+                count: sp.n,
+                alg: Some("sha256".to_string()),
+                init_hash: None,
+                hashes: VecByteBuf(sp.tree.layers[sp.rowk].iter().map(|h| ByteBuf::from(h.0.clone())).collect()),
+                fixed_block_size: Some(sp.block as u64),
+                variable_block_sizes: None,
+            })
+            .collect(),
+    );
+    // the verdict must not depend on the run: repeat (each call builds fresh hash maps)
+    let reps = if nm >= 2 { 6 } else { 2 };
+    let verdicts: Vec<String> = (0..reps)
+        .map(|_| {
+            verdict_str(&guarded(std::panic::AssertUnwindSafe(|| {
+                let mut cur = std::io::Cursor::new(f.clone());
+                bh.verify_stream_hash(&mut cur, Some("sha256"))
+            })))
+        })
+        .collect();
+    let stable = verdicts.iter().all(|v| *v == verdicts[0]);
+    let reply = if stable { verdicts[0].clone() } else { "unstable".to_string() };
+
+    let req = format!(
+        "C16 mdats trees={} mm={} chunks={} boxes={}",
+        specs.iter().map(|s| s.n.to_string()).collect::<Vec<_>>().join(","),
+        specs.iter().enumerate().map(|(m, s)| format!("{}:{m}:{}:{}", lids[m], s.n, s.rowk)).collect::<Vec<_>>().join(";"),
+        placed.iter().map(|g| g.iter().map(|c| c.tok.clone()).collect::<Vec<_>>().join(",")).collect::<Vec<_>>().join(";"),
+        placed.iter().flatten().map(|c| format!("{}:{}", c.loc, placed_proof_tok(&specs, c))).collect::<Vec<_>>().join(";"),
+    );
+    let idx = run.case(req, reply.clone());
+    run.count(&format!("placement_{kind}"));
+    run.count(&format!("placement_mdats_{nm}"));
+    run.nontrivial(format!("placement {kind} nm={nm} n={n} rows={:?} i={i} j={j}", specs.iter().map(|s| s.rowk).collect::<Vec<_>>()));
+
+    // independent oracle: the content at every chunk position is the committed content
+    let content_intact = placed.iter().zip(&specs).all(|(g, sp)| g.len() == sp.n && g.iter().zip(&sp.chunks).all(|(c, h)| c.bytes == *h));
+    let want = if kind == "honest" { "true" } else { "false" };
+    if reply != want {
+        *all_ok = false;
+        let class = if reply == "panic" {
+            "panic"
+        } else if !content_intact && verdicts.iter().any(|v| v == "true") {
+            "chunk-moved-with-its-box-accepted"
+        } else if kind == "honest" && nm >= 2 {
+            "honest-multi-mdat-rejected"
+        } else if kind == "honest" {
+            "honest-asset-rejected"
+        } else if verdicts.iter().any(|v| v == "true") {
+            "altered-asset-accepted"
+        } else {
+            "unexpected-error"
+        };
+        run.fail(
+            idx,
+            class,
+            format!(
+                "{kind}: {nm} mdat(s), chunks per mdat {:?}, stored rows {:?}, mdat {t} positions {i},{j}: content at every position {} the committed content; BmffHash::verify_stream_hash x{reps} says {verdicts:?}, the statement requires {want}",
+                specs.iter().map(|s| s.n).collect::<Vec<_>>(),
+                specs.iter().map(|s| s.rowk).collect::<Vec<_>>(),
+                if content_intact { "is" } else { "is NOT" }
+            ),
+        );
+    }
+}
+
+/// fragmented branch of `verify_stream_hash` (single file holding all fragments): chunk `index` is the
+/// box run moof..next moof; its uuid box is `bmff_merkle[index]`.  With bmff hash version 1 (still accepted
+/// on validation) the chunk hash does not include box offsets, so a fragment can be moved; with version
+/// >= 2 the offsets of the top-level boxes are hashed with the chunk, which binds the position already.
+fn fragment_case(run: &mut Run, r: &mut Rng, all_ok: &mut bool) {
+    let n = r.range(2, 8) as usize;
+    let block = r.range(16, 96) as usize;
+    // fragment = moof{mfhd} + mdat, all of one length
+    let frags: Vec<Vec<u8>> = (0..n)
+        .map(|k| {
+            let mut f = vec![];
+            f.extend_from_slice(&24u32.to_be_bytes());
+            f.extend_from_slice(b"moof");
+            f.extend_from_slice(&16u32.to_be_bytes());
+            f.extend_from_slice(b"mfhd");
+            f.extend_from_slice(&[0, 0, 0, 0]);
+            f.extend_from_slice(&(k as u32 + 1).to_be_bytes());
+            f.extend_from_slice(&((8 + block) as u32).to_be_bytes());
+            f.extend_from_slice(b"mdat");
+            f.extend_from_slice(&r.bytes(block));
+            f
+        })
+        .collect();
+    let mut bh = BmffHash::new("jumbf manifest", "sha256", None);
+    bh.set_default_exclusions();
+    bh.set_bmff_version(1);
+    let assemble = |units: &[(Vec<u8>, Vec<u8>)]| -> Vec<u8> {
+        let mut f = vec![];
+        f.extend_from_slice(&20u32.to_be_bytes());
+        f.extend_from_slice(b"ftypisom\0\0\0\0isom");
+        for (b, fr) in units {
+            f.extend_from_slice(b);
+            f.extend_from_slice(fr);
+        }
+        f
+    };
+    let rowk = r.below(C2PAMerkleTree::to_layout(n).len() as u64) as usize;
+    // version 1: the leaf is the plain hash of the fragment's bytes (uuid boxes are excluded)
+    let leaves: Vec<Vec<u8>> = frags.iter().map(|f| sha(&[f])).collect();
+    let tree = C2PAMerkleTree::from_leaves(leaves.iter().map(|l| MerkleNode(l.clone())).collect(), "sha256", false);
+    let spec = MdatSpec { n, rowk, block, tree, chunks: frags.clone() };
+    let specs = [spec];
+    let honest = honest_placed(&specs).remove(0);
+    let mut placed = honest.clone();
+    let i = r.below(n as u64) as usize;
+    let j = (i + 1 + r.below(n as u64 - 1) as usize) % n;
+    let mut kind = "honest";
+    match r.below(7) {
+        0 | 1 => {
+            kind = "chunk-and-box-duplicated";
+            placed[j] = honest[i].clone();
+        }
+        2 | 3 => {
+            kind = "chunk-and-box-swapped";
+            placed.swap(i, j);
+        }
+        4 => {
+            kind = "all-chunks-and-boxes-same";
+            for q in 0..n {
+                placed[q] = honest[i].clone();
+            }
+        }
+        _ => {}
+    }
+    let units: Vec<(Vec<u8>, Vec<u8>)> = placed.iter().map(|c| (merkle_uuid_box(&bmff_merkle_map_cbor(c.loc, &c.proof)), c.bytes.clone())).collect();
+    let stream = assemble(&units);
+    bh.set_merkle(vec![MerkleMap {
+        unique_id: 0,
+        local_id: 0,
+        count: n,
+        alg: Some("sha256".to_string()),
+        init_hash: None,
+        hashes: VecByteBuf(specs[0].tree.layers[rowk].iter().map(|h| ByteBuf::from(h.0.clone())).collect()),
+        fixed_block_size: None,
+        variable_block_sizes: None,
+    }]);
+    let reply = verdict_str(&guarded(std::panic::AssertUnwindSafe(|| {
+        let mut cur = std::io::Cursor::new(stream.clone());
+        bh.verify_stream_hash(&mut cur, Some("sha256"))
+    })));
+    let req = format!(
+        "C16 frags trees={n} mm=0:0:{n}:{rowk} chunks={} boxes={}",
+        placed.iter().map(|c| c.tok.clone()).collect::<Vec<_>>().join(","),
+        placed.iter().map(|c| format!("{}:{}", c.loc, placed_proof_tok(&specs, c))).collect::<Vec<_>>().join(";"),
+    );
+    let idx = run.case(req, reply.clone());
+    run.count(&format!("fragment_v1_{kind}"));
+    run.nontrivial(format!("fragment v1 {kind} n={n} row={rowk} i={i} j={j}"));
+    let want = if kind == "honest" { "true" } else { "false" };
+    if reply != want {
+        *all_ok = false;
+        let class = match (kind, reply.as_str()) {
+            (_, "panic") => "panic",
+            ("honest", _) => "honest-asset-rejected",
+            (_, "true") => "chunk-moved-with-its-box-accepted",
+            _ => "unexpected-error",
+        };
+        run.fail(idx, class, format!("fragmented stream (bmff hash v1), {kind}: {n} fragments, stored row {rowk}, positions {i},{j}: verify_stream_hash says {reply}, the statement requires {want}"));
     }
 }
 
